@@ -150,3 +150,36 @@ func VfC07_Heal() {
 	}
 	close(u.quit)
 }
+
+// VfC07_RefreshTrigger: a redirection that arrives while a slots refresh is in flight (its
+// CLUSTER NODES snapshot may predate the layout change) still leads to another refresh round
+// afterwards; a failed round re-arms the trigger by itself.
+func VfC07_RefreshTrigger() {
+	nd.ConcreteClock(true)
+	seed := "10.0.0.1:7000"
+	u, clients := vfNewUpstream(nil, seed)
+	done := make(chan struct{})
+	go func() { u.refreshSlots(); close(done) }()
+	nd.Quiesce()
+	req := vfTake(clients[seed])
+	nd.Assert(req != nil, "the refresh asks a seed host")
+	if req == nil {
+		return
+	}
+	redirectDuring := nd.Bool("redirect-during-refresh")
+	if redirectDuring {
+		u.triggerSlotsRefresh() // what handleRedirection does
+	}
+	ok := nd.Bool("refresh-succeeds")
+	if ok {
+		req.SetResponse(newBulkString("idA 10.0.1.1:7000@17000 master - 0 0 1 connected 0-16383\n"))
+	} else {
+		req.SetResponse(newError("ERR not now"))
+	}
+	nd.Quiesce()
+	nd.Assert(vfDone(done), "the refresh round ends")
+	if redirectDuring || !ok {
+		nd.Cover("another-round-pending")
+		nd.Assert(len(u.slotsRefreshCh) == 1, "a redirection during a refresh, or a failed refresh, leaves another refresh round pending")
+	}
+}
